@@ -93,6 +93,42 @@ func hourOffsets(p *Prog, v ssa.Value) (offs []int64, why string) {
 // constTable: v is a load of an element of a local array that is initialised
 // with integer constants only; returns the table.
 func constTable(v ssa.Value) ([]int64, bool) {
+	// an element of an array VALUE (range over an array literal copies it): t = *alloc; t[i]
+	if ix, isIx := unspill(v).(*ssa.Index); isIx {
+		if ld, isLd := ix.X.(*ssa.UnOp); isLd && ld.Op == token.MUL {
+			if a, isA := ld.X.(*ssa.Alloc); isA {
+				var out []int64
+				for _, r := range *a.Referrers() {
+					switch x := r.(type) {
+					case *ssa.IndexAddr:
+						for _, rr := range *x.Referrers() {
+							st, ok := rr.(*ssa.Store)
+							if !ok || st.Addr != ssa.Value(x) || !instrDominates(st, ld) {
+								return nil, false
+							}
+							k, ok := intConst(st.Val)
+							if !ok {
+								return nil, false
+							}
+							out = append(out, k)
+						}
+					case *ssa.UnOp:
+					default:
+						return nil, false
+					}
+				}
+				if n, ok := constLen(a.Type()); ok && int64(len(out)) < n {
+					out = append(out, 0)
+				}
+				sort.Slice(out, func(i, j int) bool { return out[i] < out[j] })
+				return out, len(out) > 0
+			}
+			if g, isG := ld.X.(*ssa.Global); isG && activeProg != nil {
+				return globalConstTable(activeProg, g)
+			}
+		}
+		return nil, false
+	}
 	u, ok := unspill(v).(*ssa.UnOp)
 	if !ok || u.Op != token.MUL {
 		// range over a slice literal may also yield the element through Next/Extract; unsupported
@@ -105,6 +141,9 @@ func constTable(v ssa.Value) ([]int64, bool) {
 	base := ia.X
 	if s, ok := base.(*ssa.Slice); ok {
 		base = s.X
+	}
+	if g, isG := base.(*ssa.Global); isG && activeProg != nil {
+		return globalConstTable(activeProg, g)
 	}
 	a, ok := base.(*ssa.Alloc)
 	if !ok {
@@ -166,14 +205,12 @@ func (p *Prog) macInputOf(sum *ssa.Call) macInput {
 	}
 	mi.Data = sl
 	mi.HourArg = unspill(ws[1])
-	if cv, ok := mi.HourArg.(*ssa.Convert); ok {
-		if fc, _ := callOf(unspill(cv.X)); fc != nil && p.CalleeID(fc.Common()) == "strconv.FormatInt" {
-			if b, ok := intConst(fc.Common().Args[1]); !ok || b != 10 {
-				mi.Err = "epoch hour is not formatted in base 10"
-				return mi
-			}
-			mi.HourExpr = fc.Common().Args[0]
+	if x, base, ok := decimalOf(p, mi.HourArg); ok {
+		if base != 10 {
+			mi.Err = "epoch hour is not formatted in base 10"
+			return mi
 		}
+		mi.HourExpr = x
 	}
 	return mi
 }
@@ -477,21 +514,16 @@ func c04HourUse(c *Ctx, p *Prog, typ, what string) {
 			bad = "never stored"
 		}
 		for _, s := range st {
-			cv, ok := unspill(s.Val).(*ssa.Convert)
+			hx, base, ok := decimalOf(p, s.Val)
 			if !ok {
-				bad = "stored value is not []byte(strconv.FormatInt(...))"
+				bad = "stored value is not the decimal text of the hour ([]byte(strconv.FormatInt(h, 10)) or equivalent)"
 				continue
 			}
-			fc, _ := callOf(unspill(cv.X))
-			if fc == nil || p.CalleeID(fc.Common()) != "strconv.FormatInt" {
-				bad = "stored value is not []byte(strconv.FormatInt(...))"
-				continue
-			}
-			offs, why := hourOffsets(p, fc.Common().Args[0])
+			offs, why := hourOffsets(p, hx)
 			if why != "" || len(offs) != 1 || offs[0] != 0 {
 				bad = "client hour is not time.Now().Unix()/3600: " + why
 			}
-			if b, ok := intConst(fc.Common().Args[1]); !ok || b != 10 {
+			if base != 10 {
 				bad = "client hour is not formatted in base 10"
 			}
 		}
@@ -562,4 +594,84 @@ func replayWindow(p *Prog) (offs []int64, ttl int64, why string) {
 		return nil, 0, "offsets or TTL not found"
 	}
 	return offs, ttl, ""
+}
+
+// globalConstTable: a package-level array whose elements are constants stored
+// by the package initialiser and never written anywhere else.
+func globalConstTable(p *Prog, g *ssa.Global) ([]int64, bool) {
+	if g.Pkg == nil || !isModulePkg(g.Pkg.Pkg) {
+		return nil, false
+	}
+	p.prov()
+	for _, w := range p.pi.writes[Loc{Kind: 'g', V: g}] {
+		if w.Fn == nil || w.Fn.Synthetic != "package initializer" {
+			return nil, false
+		}
+	}
+	initFn := g.Pkg.Func("init")
+	if initFn == nil {
+		return nil, false
+	}
+	var out []int64
+	ok := true
+	for _, b := range initFn.Blocks {
+		for _, in := range b.Instrs {
+			st, isSt := in.(*ssa.Store)
+			if !isSt {
+				continue
+			}
+			ia, isIA := st.Addr.(*ssa.IndexAddr)
+			if !isIA || ia.X != ssa.Value(g) {
+				if st.Addr == ssa.Value(g) {
+					ok = false // whole-array store: not followed
+				}
+				continue
+			}
+			k, isK := intConst(st.Val)
+			if !isK {
+				ok = false
+				continue
+			}
+			out = append(out, k)
+		}
+	}
+	// elements not stored explicitly are zero
+	if n, isArr := constLen(g.Type()); isArr && int64(len(out)) < n {
+		out = append(out, 0)
+	}
+	sort.Slice(out, func(i, j int) bool { return out[i] < out[j] })
+	return out, ok && len(out) > 0
+}
+
+// decimalOf: v is the decimal text of an integer as bytes:
+// []byte(strconv.FormatInt(x, 10)), []byte(strconv.Itoa(x)) or
+// strconv.AppendInt(nil / empty, x, 10).  Returns x and the base.
+func decimalOf(p *Prog, v ssa.Value) (ssa.Value, int64, bool) {
+	v = unspill(v)
+	if cv, ok := v.(*ssa.Convert); ok {
+		if fc, _ := callOf(unspill(cv.X)); fc != nil {
+			switch p.CalleeID(fc.Common()) {
+			case "strconv.FormatInt":
+				b, _ := intConst(fc.Common().Args[1])
+				return fc.Common().Args[0], b, true
+			case "strconv.Itoa":
+				return fc.Common().Args[0], 10, true
+			}
+		}
+		return nil, 0, false
+	}
+	if ac, _ := callOf(v); ac != nil && p.CalleeID(ac.Common()) == "strconv.AppendInt" {
+		dst := unspill(ac.Common().Args[0])
+		empty := isNilConst(dst)
+		if sl, ok := dst.(*ssa.Slice); ok && sl.High != nil {
+			if k, ok := intConst(sl.High); ok && k == 0 {
+				empty = true
+			}
+		}
+		if empty {
+			b, _ := intConst(ac.Common().Args[2])
+			return ac.Common().Args[1], b, true
+		}
+	}
+	return nil, 0, false
 }
